@@ -180,6 +180,20 @@ def main():
                 v += vv; n += nn
             v += lasym_check(cfg, q)
             n += 1
+            # every single symmetry-breaking knob on its own (cheap first-order objects; B2s needs order >= r2)
+            base = dict((k_, v_) for k_, v_ in cfg.items() if k_ not in ('rs', 'zc', 'sigma0', 'B2s'))
+            nh = len(cfg['rc'])
+            knobs = [dict(), dict(rs=[0.0] * (nh - 1) + [1e-3]), dict(zc=[0.0] * (nh - 1) + [1e-3]), dict(sigma0=0.05)]
+            if cfg['order'] != 'r1':
+                knobs.append(dict(B2s=0.1))
+            for kn in knobs:
+                c2 = dict(base); c2.update(kn); c2['nphi'] = 15
+                try:
+                    q2, _ = build(c2)
+                except Exception:
+                    continue
+                v += [x for x in lasym_check(c2, q2) if x['key'] == 'lasym']
+                n += 1
         else:
             k = int(rng.integers(1, q.nphi))
             vv, nn = predict_shift(cfg, k, q0=q)
